@@ -20,8 +20,20 @@ def main() -> int:
     mod = importlib.import_module(f"mc.checks.{rec['property'].lower()}")
     if rec.get("shard") is not None:
         # history-dependent violation: re-run the enclosing shard from this fresh interpreter
-        res = mod.run_shard(rec["shard"], rec.get("tier", "quick"), rec.get("seed", 0))
-        found = [v for v in res.violations if v["kind"] == rec["kind"]] or res.violations
+        try:
+            res = mod.run_shard(rec["shard"], rec.get("tier", "quick"), rec.get("seed", 0))
+            found = [v for v in res.violations if v["kind"] == rec["kind"]] or res.violations
+        except Exception as e:  # noqa: BLE001 - the implementation raised where a result is promised
+            import traceback
+
+            from mc.common import PTA_SRC
+
+            tb = traceback.extract_tb(e.__traceback__)
+            if tb and os.path.realpath(tb[-1].filename).startswith(os.path.realpath(PTA_SRC) + os.sep):
+                found = [{"kind": "implementation-raised-where-the-property-promises-a-result", "case": rec.get("case"),
+                          "expected": "no exception", "observed": f"{type(e).__name__}: {e}"}]
+            else:
+                raise
     else:
         found = mod.replay(rec)
     if found:
